@@ -70,15 +70,27 @@ THEOREMS = {
     "insert_range": _STEP + [_P + "insertRange_refines", _P + "rotate_eq"],
     "move_insert": _STEP + [_P + "insertRange_refines", _P + "rotate_eq"],
     "erase": _STEP + [_P + "eraseRange_refines"], "erase_range": _STEP + [_P + "eraseRange_refines"],
-    "resize": _STEP, "resize_val": _STEP, "assign_fill": _STEP, "assign_range": _STEP, "clear": _STEP,
+    "resize": _STEP, "resize_val": _STEP,
+    # assign(n, v[i]) is excluded by [sequence.reqmts] ("t is not a reference into a"): the theorem says why it has to be
+    "assign_fill": _STEP + [_P + "assign_alias_reads_destroyed"], "assign_range": _STEP, "clear": _STEP,
     "ctor_n": _STEP, "ctor_n_val": _STEP, "ctor_range": _STEP,
     "erase_if": _STEP + [_P + "eraseIf_refines", _P + "eraseIf_keeps_handles"],
     "erase_val": _STEP + [_P + "eraseIf_refines", _P + "eraseIf_keeps_handles"],
-    "cmp": _STEP + [_P + "relOps_refines"], "swap": _STEP + [_P + "swap_refines"], "swap_free": _STEP + [_P + "swap_refines"],
+    "cmp": _STEP + [_P + "relOps_refines", _P + "relOps_refines_strict_weak", _P + "kinds_strict_weak",
+                    _P + "relOps_refines_kinds", _P + "relOps_total_order", _P + "relOps_refines_nat"], "swap": _STEP + [_P + "swap_refines"], "swap_free": _STEP + [_P + "swap_refines"],
     "copy_ctor": _STEP + [_P + "copy_independent", _P + "interleave_projection", _P + "interleave_ok"],
     "copy_assign": _STEP + [_P + "interleave_projection", _P + "interleave_ok"],
     "move_ctor": _STEP + [_P + "moved_from_static_vector", _P + "moved_from_inplace_vector", _P + "moved_from_usable"],
     "move_assign": _STEP + [_P + "moved_from_static_vector", _P + "moved_from_self", _P + "moved_from_usable"],
+    "push_alias": _STEP + [_P + "push_alias_eq", _P + "alias_spec", _P + "alias_members_generalise"],
+    "emplace_back_alias": _STEP + [_P + "push_alias_eq", _P + "alias_spec", _P + "alias_members_generalise"],
+    "push_top": _STEP + [_P + "push_alias_eq", _P + "alias_spec"],
+    "emplace_top": _STEP + [_P + "push_alias_eq", _P + "alias_spec"],
+    "insert_alias": _STEP + [_P + "insert_alias_eq", _P + "alias_spec", _P + "alias_members_generalise", _P + "rotate_eq"],
+    "emplace_alias": _STEP + [_P + "insert_alias_eq", _P + "alias_spec", _P + "alias_members_generalise", _P + "rotate_eq"],
+    "insert_fill_alias": _STEP + [_P + "insertFill_alias_eq", _P + "alias_spec", _P + "alias_members_generalise",
+                                  _P + "rotate_eq"],
+    "resize_val_alias": _STEP + [_P + "resize_alias_eq", _P + "alias_spec", _P + "alias_members_generalise"],
     "dump": [_P + "observers_refine", _P + "observers_refine_ipv_stk", _P + "observers_zero_capacity"],
     "try_push": _STEP + [_P + "tryPush_full"], "try_push_rv": _STEP + [_P + "tryPush_full"],
     "try_emplace": _STEP + [_P + "tryPush_full"], "unchecked_push": _STEP, "unchecked_push_rv": _STEP,
@@ -103,6 +115,9 @@ EMPTIED = 9998
 GENSIZE_LEAN = os.path.join(lib.LEAN, "Tetl", "C01", "GenSize.lean")
 # capacities at which the harness instantiates static_vector<HD, N> (C01_HD_CAPS in harness/c01.cpp)
 HD_CAPS = (0, 1, 2, 3, 4, 7)
+# capacities at which the harness instantiates static_vector<KP, N> / stack<KP, static_vector<KP, N>> (C01_KP_CAPS, C01_KP_STK_CAPS)
+KP_CAPS = (0, 1, 2, 3, 4)
+KP_STK_CAPS = (1, 3)
 # the thresholds of the smallest_size_t chain: the selected type is not the smallest one there (known finding)
 WIDTH_CAPS = [0, 1, 254, 255, 256, 65534, 65535, 65536, 4294967294, 4294967295, 4294967296, 9223372036854775807]
 THRESHOLDS = {255, 65535, 4294967295}
@@ -181,10 +196,13 @@ def unary_ops_exhaustive(ty, cap, d):
         for x in (0, 1, 2):
             ops.append("erase_val x=%d" % x)
         ops += ["erase_if m=2 r=0", "erase_if m=2 r=1", "erase_if m=1 r=0", "erase_if m=3 r=2", "erase_if m=5 r=4"]
+        ops += alias_ops_exhaustive(cap, d)
     elif ty == "stk":
         if room > 0:
             for x in (1, 2):
                 ops += ["push x=%d" % x, "push_rv x=%d" % x, "emplace_back x=%d" % x]
+            if n > 0:
+                ops += ["push_top", "emplace_top"]
         if n > 0:
             ops.append("pop")
     elif ty == "ipv":
@@ -196,6 +214,34 @@ def unary_ops_exhaustive(ty, cap, d):
             ops.append("pop")
         ops.append("clear")
     return ops
+
+
+def alias_ops_exhaustive(cap, d):
+    """static_vector: every member that takes its argument by reference, called with every element of the vector itself
+    (`v.insert(v.begin() + pos, v[i])`), at every position / count (mirrors Tetl.C01.valid1 of the …A operations)"""
+    n = len(d)
+    room = cap - n
+    ops = []
+    if n == 0:
+        return ops
+    if room > 0:
+        ops += ["push_top", "emplace_top"]
+        for i in range(n):
+            ops += ["push_alias i=%d" % i, "emplace_back_alias i=%d" % i]
+            for p in range(n + 1):
+                ops += ["insert_alias pos=%d i=%d" % (p, i), "emplace_alias pos=%d i=%d" % (p, i)]
+    for i in range(n):
+        for p in range(n + 1):
+            for k in range(room + 1):
+                ops.append("insert_fill_alias pos=%d n=%d i=%d" % (p, k, i))
+        for k in range(cap + 1):
+            ops.append("resize_val_alias n=%d i=%d" % (k, i))
+    return ops
+
+
+# the key/payload kind differs from int only in operator< / operator== (same storage): its single-object box is the
+# members that compare elements, the aliasing members and a few plain ones
+KP_UNARY = ("erase_val", "push", "insert", "push_alias", "push_top", "insert_alias", "insert_fill_alias", "resize_val_alias")
 
 
 def build(ty, d, obj):
@@ -264,7 +310,10 @@ def boundary_histories(add):
                  "erase pos=0", "insert_fill pos=%d n=1 x=6" % (cap - 1), "copy_ctor obj=1 other=0", "cmp obj=0 other=1",
                  "pop obj=1", "cmp obj=0 other=1", "erase_range f=1 l=%d" % (cap - 1), "resize n=%d" % cap,
                  "resize_val n=%d x=3" % (cap - 2), "erase_if m=2 r=0", "assign_fill n=%d x=1" % cap, "swap obj=0 other=1",
-                 "clear obj=1", "insert_range obj=1 pos=0 xs=%s" % fmt_list(xs + [5])], "sv/boundary")
+                 "clear obj=1", "insert_range obj=1 pos=0 xs=%s" % fmt_list(xs + [5]), "pop obj=1",
+                 "insert_alias obj=1 pos=0 i=%d" % (cap - 2), "pop obj=1", "insert_alias obj=1 pos=3 i=5", "pop obj=1",
+                 "push_top obj=1", "resize_val_alias obj=1 n=%d i=1" % (cap - 3), "insert_fill_alias obj=1 pos=1 n=3 i=2"],
+                "sv/boundary")
             add([new_line("ipv", cap, kind)] + ["unchecked_push x=%d" % (i % 7) for i in range(cap - 1)]
                 + ["try_push x=9", "try_push x=4", "try_emplace x=4", "try_push_rv x=4", "copy_ctor obj=1 other=0",
                    "pop obj=0", "try_push obj=1 x=2", "try_emplace obj=0 x=3", "move_ctor obj=2 other=0", "clear obj=0",
@@ -282,22 +331,30 @@ def new_line(ty, cap, kind, init=None):
 def exhaustive(add, thorough):
     for ty in ("sv", "stk", "ipv"):
         # the handle kind (move assignment empties its source, no self test) exists for static_vector only
-        for kind in (("int", "nt", "hd") if ty == "sv" else ("int", "nt")):
+        # and the key/payload kind (operator< on the key only: the values 0 and 1 are equivalent and not equal, 2 is
+        # greater than both) for static_vector and the stack over it
+        for kind in {"sv": ("int", "nt", "hd", "kp"), "stk": ("int", "nt", "kp"), "ipv": ("int", "nt")}[ty]:
             caps = [0, 1, 2, 3] if ty != "stk" else [0, 1, 3]
+            if kind == "kp" and ty == "stk":
+                caps = list(KP_STK_CAPS)
             for cap in caps:
                 head = new_line(ty, cap, kind)
                 states = list(lists([0, 1, 2], cap))
                 for d in states:
                     pre = build(ty, d, 0)
                     for op in unary_ops_exhaustive(ty, cap, d):
+                        if kind == "kp" and not thorough and op.split(" ")[0] not in KP_UNARY:
+                            continue
                         add([head] + pre + [op], "%s/%s" % (ty, op.split(" ")[0]))
                 pair_states = states if (cap <= 2 or thorough) else [s for s in states if 0 not in s or len(s) <= 1]
                 if kind == "hd" and not thorough:
                     pair_states = [s for s in pair_states if 2 not in s]
+                if kind == "kp":
+                    pair_states = states        # every ordered pair: equivalent-but-not-equal elements at every index
                 for d0 in pair_states:
                     for d1 in pair_states:
                         pre = build(ty, d0, 0) + build(ty, d1, 1)
-                        for op in BINARY[ty]:
+                        for op in (BINARY[ty] if kind != "kp" else ["cmp"] + (BINARY[ty][:-1] if thorough else [])):
                             lines = [head] + pre + ["%s obj=0 other=1" % op]
                             if op in ("move_ctor", "move_assign"):
                                 # the moved-from source: observe it, then give it a specified value again and use it
@@ -309,7 +366,7 @@ def exhaustive(add, thorough):
                                 # the copy (object 0); all four objects are dumped after every line
                                 lines += independence_lines(ty, cap, d1)
                             add(lines, "%s/%s" % (ty, op))
-                    for op in SELF[ty]:
+                    for op in (SELF[ty] if kind != "kp" or thorough else ["cmp"]):
                         lines = [head] + build(ty, d0, 0) + ["%s obj=0 other=0" % op]
                         if op == "move_assign":
                             lines += ["clear obj=0"] if ty == "sv" else ["copy_assign obj=0 other=2"]
@@ -358,11 +415,13 @@ class Mirror:
         return list(d)
 
 
+ALIAS_CANDS = ["push_alias", "emplace_back_alias", "push_top", "emplace_top", "insert_alias", "insert_alias", "emplace_alias",
+               "insert_fill_alias", "insert_fill_alias", "resize_val_alias"]
 UNARY_CANDS = {
     "sv": ["push", "push_rv", "emplace_back", "insert", "insert_rv", "emplace", "insert_fill", "insert_range", "move_insert",
            "pop", "erase", "erase_range", "resize", "resize_val", "assign_fill", "assign_range", "clear", "erase_val",
-           "erase_if", "ctor_n", "ctor_n_val", "ctor_range", "dump"],
-    "stk": ["push", "push", "push_rv", "emplace_back", "pop", "pop", "dump"],
+           "erase_if", "ctor_n", "ctor_n_val", "ctor_range", "dump"] + ALIAS_CANDS,
+    "stk": ["push", "push", "push_rv", "emplace_back", "pop", "pop", "dump", "push_top", "emplace_top"],
     "ipv": ["try_push", "try_push", "try_push_rv", "try_emplace", "unchecked_push", "unchecked_push_rv",
             "unchecked_emplace", "pop", "pop", "clear"],
 }
@@ -434,10 +493,10 @@ def rand_history(rnd, ty, cap, kind, length, big, interleave=False):
             cands = ["push", "push_rv", "emplace_back", "insert", "insert_rv", "emplace", "insert_fill", "insert_range",
                      "move_insert", "pop", "erase", "erase_range", "resize", "resize_val", "assign_fill", "assign_range",
                      "clear", "erase_val", "erase_if", "ctor_n", "ctor_n_val", "ctor_range", "copy_ctor", "move_ctor",
-                     "copy_assign", "move_assign", "swap", "swap_free", "cmp", "cmp", "dump"]
+                     "copy_assign", "move_assign", "swap", "swap_free", "cmp", "cmp", "dump"] + ALIAS_CANDS
         elif ty == "stk":
             cands = ["push", "push", "push_rv", "emplace_back", "pop", "copy_ctor", "move_ctor", "copy_assign",
-                     "move_assign", "swap", "swap_free", "cmp"]
+                     "move_assign", "swap", "swap_free", "cmp", "push_top", "emplace_top"]
         else:
             cands = ["try_push", "try_push", "try_push_rv", "try_emplace", "unchecked_push", "unchecked_push_rv",
                      "unchecked_emplace", "pop", "clear", "copy_ctor", "move_ctor"]
@@ -454,6 +513,39 @@ def rand_history(rnd, ty, cap, kind, length, big, interleave=False):
             x = val()
             emit("%s %s x=%d" % (op, o, x), op)
             d.append(x)
+        elif op in ("push_alias", "emplace_back_alias"):
+            if room <= 0 or n == 0:
+                continue
+            i = rnd.randrange(n)
+            emit("%s %s i=%d" % (op, o, i), op)
+            d.append(d[i])
+        elif op in ("push_top", "emplace_top"):
+            if room <= 0 or n == 0:
+                continue
+            emit("%s %s" % (op, o), op)
+            d.append(d[-1])
+        elif op in ("insert_alias", "emplace_alias"):
+            if room <= 0 or n == 0:
+                continue
+            p = rnd.choice([0, n, rnd.randint(0, n)])
+            i = rnd.choice([n - 1, rnd.randrange(n), rnd.randrange(n)])
+            emit("%s %s pos=%d i=%d" % (op, o, p, i), op)
+            d.insert(p, d[i])
+        elif op == "insert_fill_alias":
+            if n == 0:
+                continue
+            p = rnd.choice([0, n, rnd.randint(0, n)])
+            c = rnd.choice([0, room, rnd.randint(0, room), min(room, 1), min(room, 2)])
+            i = rnd.choice([n - 1, rnd.randrange(n), rnd.randrange(n)])
+            emit("insert_fill_alias %s pos=%d n=%d i=%d" % (o, p, c, i), op)
+            d[p:p] = [d[i]] * c
+        elif op == "resize_val_alias":
+            if n == 0:
+                continue
+            c = rnd.choice([0, cap, n, rnd.randint(0, cap), max(n - 1, 0), min(n + 1, cap)])
+            i = rnd.randrange(n)
+            emit("resize_val_alias %s n=%d i=%d" % (o, c, i), op)
+            m.o[k] = d[:c] + [d[i]] * (c - n)
         elif op in ("try_push", "try_push_rv", "try_emplace"):
             x = val()
             emit("%s %s x=%d" % (op, o, x), op + ("/full" if room <= 0 else ""))
@@ -569,6 +661,15 @@ def rand_history(rnd, ty, cap, kind, length, big, interleave=False):
     return lines, tags
 
 
+def kinds_for(ty, cap):
+    """element kinds the harness instantiates for the type at this capacity"""
+    if ty == "sv":
+        return ["int", "nt", "hd"] + (["kp"] if cap in KP_CAPS else [])
+    if ty == "stk":
+        return ["int", "nt"] + (["kp"] if cap in KP_STK_CAPS else [])
+    return ["int", "nt"]
+
+
 def generate(tier, seed):
     rnd = random.Random(seed)
     thorough = tier == "thorough"
@@ -584,7 +685,7 @@ def generate(tier, seed):
     for i in range(nrand):
         ty = rnd.choice(["sv", "sv", "sv", "stk", "ipv"])
         cap = rnd.choice([0, 1, 2, 3, 4, 4, 7, 7] if ty != "stk" else STK_CAPS)
-        kind = rnd.choice(["int", "nt", "hd"] if ty == "sv" else ["int", "nt"])
+        kind = rnd.choice(kinds_for(ty, cap))
         lines, tags = rand_history(rnd, ty, cap, kind, rnd.randint(1, 40), False)
         add(lines, "%s/rand" % ty)
         for t in tags:
@@ -593,7 +694,7 @@ def generate(tier, seed):
     for i in range(40000 if thorough else 2500):
         ty = rnd.choice(["sv", "sv", "stk", "ipv"])
         cap = rnd.choice([1, 2, 3, 4, 4, 7, 7] if ty != "stk" else [1, 3, 4])
-        kind = rnd.choice(["int", "nt", "hd"] if ty == "sv" else ["int", "nt"])
+        kind = rnd.choice(kinds_for(ty, cap))
         lines, tags = rand_history(rnd, ty, cap, kind, rnd.randint(2, 16), False, interleave=True)
         add(lines, "%s/interleave" % ty)
         for t in tags:
